@@ -308,12 +308,17 @@ function runCase(c) {
       const direct = $externalizeFunction(fns[0], ft, false) === $externalize(fns[0], ft);
       return {ids, calls, result, viaIface, direct};
     }
-    case 'jsfunc': {      // JS function -> Go func(...interface{}) *js.Object, called with Go args
+    case 'jsfunc': {      // JS function -> variadic Go func(fixed..., ...vt) *js.Object, called with a spread of a (sub)slice
       const f = jsFunc(c.f);
-      const g = $internalize(f, funcAny);
-      const args = new ($sliceType($emptyInterface))(c.args.map(a => mkGo('iface', a)));
-      const r = g(args);
-      return {fn: r.__fn, args: r.args.map(x => serJs(x))};
+      const fixed = c.fixed || [], vt = c.vt || 'iface', pre = c.pre || [], post = c.post || [];
+      const st = $sliceType(mkType(vt));
+      const ft = $funcType(fixed.map(x => mkType(x[0])).concat([st]), [$jsObjectPtr], true);
+      const g = $internalize(f, ft);
+      const all = pre.concat(c.args, post).map(a => mkGo(vt, a));
+      let sl = new st($toNativeArray(st.elem.kind, all));
+      if (pre.length || post.length) sl = G('$subslice')(sl, pre.length, pre.length + c.args.length);
+      const r = g(...fixed.map(x => mkGo(x[0], x[1])), sl);
+      return {fn: r.__fn, args: r.args.map(x => serJs(x)), offset: sl.$offset};
     }
     case 'block': {       // $block with $curGoroutine = $noGoroutine, and with a goroutine
       const before = E('({cur: $curGoroutine === $noGoroutine, asleep: $noGoroutine.asleep, total: $totalGoroutines, awake: $awakeGoroutines, sched: $scheduled.length})');
